@@ -63,6 +63,7 @@ def run(ctx):
                         ctx.ob('owner', fi, s, name == '__init__',
                                'Dataset.%s stores self.%s; only the constructor may (column order is normalised there)' % (name, el.attr))
     ctx.floor('stores to Dataset fields', n_owner, 3)
+    check_bare_names(ctx)
 
     # ---- column order on every constructor path ----------------------------------------------------
     ex = SeqExec(repo, init, SELF, {p_df: ('frame', p_df)})
@@ -336,3 +337,23 @@ def check_size(ctx, fi):
         ctx.ob('exact-size', fi, v, exact,
                'the size of a domain is the exact product of its attribute sizes; `%s` %s' % (U(v), 'uses Python integers' if exact else
                                                                                               'is a fixed-width numpy reduction that wraps silently at 2**63 cells'))
+
+
+def check_bare_names(ctx):
+    """Domain.project / size / marginalize ... accept one attribute NAME or a sequence of names: a bare string must become the one-element
+    sequence, never its characters (evaluated per spelling of the argument, rules/C04.Spell)"""
+    from .C04 import Spell
+    fi = ctx.repo.nfunc(DOM, 'Domain.project')
+    ctx.analysed(fi)
+    p = fi.params[1]
+    for kind in ('str', 'list', 'tuple'):          # (a str SUBCLASS such as np.str_ is not wrapped by the unmodified `type(attrs) is str` either)
+        sp = Spell(fi, ('_Q', '_y', '_noise', p), kind, True)
+        try:
+            sp.run(fi.body)
+        except AnalysisError as e:
+            raise AnalysisError('Domain.project [%s given as %s]: %s' % (p, kind, e))
+        v = sp.env.get(p)
+        ok = isinstance(v, tuple) and v[0] == 'proj' and v[1] in ('list', 'tuple') and v[2] == 'attrs'
+        ctx.ob('bare-name', fi, fi.node, ok,
+               '[%s given as %s] the attributes projected onto must be the sequence of names (a bare name wrapped into one element); they are %s'
+               % (p, {'strsub': 'a str subclass'}.get(kind, kind), v[1:] if isinstance(v, tuple) else v), construct='argument of Domain.project as %s' % kind)
